@@ -83,6 +83,17 @@ func (w *W) signature() string {
 }
 
 func (w *W) Failf(kind string, facts map[string]string, format string, a ...interface{}) {
+	// facts of the running operation complete the oracle's own facts
+	if w.opFacts != nil {
+		if facts == nil {
+			facts = map[string]string{}
+		}
+		for _, k := range sortedFactKeys(w.opFacts) {
+			if _, ok := facts[k]; !ok {
+				facts[k] = w.opFacts[k]
+			}
+		}
+	}
 	panic(&Violation{Class: w.Prop + "/" + kind, Detail: fmt.Sprintf(format, a...), Facts: facts})
 }
 
